@@ -168,6 +168,11 @@ class SteadyDetonationReactionZone(ExactSolver):
 
         xsolution = dict()
 
+        # The positions are the first field of every ExactPack solution
+        #  (the field order follows the insertion order of this dictionary)
+
+        xsolution['position'] = xvec
+
         varnames = ['pressure','velocity','density','sound_speed',
                         'reaction_progress','position_relative']
 
@@ -212,12 +217,6 @@ class SteadyDetonationReactionZone(ExactSolver):
         for var in varnames:
             interpfcn = interp1d(tsolution['position'][::-1],tsolution[var][::-1])
             xsolution[var][jmask] = interpfcn(xvec[jmask])
-
-        #
-        # assign xvec into the solution object
-        #
-
-        xsolution['position'] = xvec
 
         return ExactSolution(xsolution.values(),
                              names=list(xsolution.keys()))
